@@ -411,6 +411,7 @@ func TestC26(t *testing.T) {
 				b, _ := json.Marshal(c)
 				st.NonTrivial(string(b), c)
 			}
+			st.SkipShrink(rt, c)
 			st.Report(rt, runC26(c), c)
 		})
 	})
